@@ -326,7 +326,12 @@ def run_body(ctx, fr, body, acc):
         elif op == 'write':
             salt = s[1] if len(s) > 1 else ''
             wopts = s[2] if len(s) > 2 else {}
-            ctx.user_write(fr.target, (acc + salt).encode('utf-8'), wopts.get('stamp') == 'fixed')
+            try:
+                ctx.user_write(fr.target, (acc + salt).encode('utf-8'), wopts.get('stamp') == 'fixed')
+            except OSError:
+                if not wopts.get('swallow'):
+                    raise
+                acc = H(acc, 'write-failed')
         elif op == 'ret':
             fr.ret = s[1]
             fr.has_ret = True
@@ -488,6 +493,10 @@ def call_bf(ctx, fr, s):
             peek_after_bf(ctx, target_abs, False, e)
         if not o.get('catch') or isinstance(e, Crash):
             raise
+        if len(os.fsencode(os.path.basename(target_abs))) > 255 and not isinstance(e, UserBoom):
+            # a target whose own name is too long for the file system: the call fails, but
+            # with which class (the OS error or "did not create the file") is not specified
+            return ['exc', 'ANY']
         return ['exc', errname(e)]
     ctx.mark('done', ckey)
     ctx.pop_call(ckey, None)
